@@ -11,7 +11,8 @@ use std::collections::BTreeMap;
 
 pub struct C07;
 
-type ElemKey = (i16, i16, CShape, Option<String>);
+/// (layer number, purpose number, canonical shape, net, exact form: corners / vertices in the order they are stored)
+type ElemKey = (i16, i16, CShape, Option<String>, String);
 type InstKey = (String, i64, i64, bool, Option<u64>);
 
 pub fn cshape_of(s: &Shape) -> CShape {
@@ -22,9 +23,29 @@ pub fn cshape_of(s: &Shape) -> CShape {
         Shape::Path(g) => CShape::Path(g.points.iter().map(p).collect(), g.width as i64),
     }
 }
+/// The stored form of a shape: a rectangle's two corners as given (not normalised), a polygon's and a path's vertices in their own order.
+/// `as_exported`: the form the shape is expected to come back in - GDSII has no rectangle, so a four-vertex axis-parallel polygon returns as
+/// the rectangle spanned by its first and third vertices (the one identification the round trip makes); everything else returns as it was.
+fn exact_form(s: &Shape, as_exported: bool) -> String {
+    let p = |q: &raw::Point| (q.x as i64, q.y as i64);
+    match s {
+        Shape::Rect(r) => format!("R{:?}{:?}", p(&r.p0), p(&r.p1)),
+        Shape::Polygon(g) => {
+            let v: Vec<(i64, i64)> = g.points.iter().map(p).collect();
+            let rectlike = v.len() == 4
+                && ((v[0].0 == v[1].0 && v[1].1 == v[2].1 && v[2].0 == v[3].0 && v[3].1 == v[0].1) || (v[0].1 == v[1].1 && v[1].0 == v[2].0 && v[2].1 == v[3].1 && v[3].0 == v[0].0));
+            if as_exported && rectlike {
+                format!("R{:?}{:?}", v[0], v[2])
+            } else {
+                format!("G{:?}", v)
+            }
+        }
+        Shape::Path(g) => format!("P{:?}w{}", g.points.iter().map(p).collect::<Vec<_>>(), g.width),
+    }
+}
 /// Per cell name: (instances, elements) as sorted multisets. Err(description) if a layer/purpose cannot be resolved.
 /// `defs`: the generator's own record of purpose numbers, consulted before the library's `Layer::num` (which is code under test)
-pub fn summarize(lib: &Library, defs: &crate::gen::rawgen::LayerDefs) -> Result<BTreeMap<String, (Vec<InstKey>, Vec<ElemKey>)>, String> {
+pub fn summarize(lib: &Library, defs: &crate::gen::rawgen::LayerDefs, as_exported: bool) -> Result<BTreeMap<String, (Vec<InstKey>, Vec<ElemKey>)>, String> {
     let layers = lib.layers.read().map_err(|_| "layers lock")?;
     let mut out = BTreeMap::new();
     for c in lib.cells.iter() {
@@ -40,7 +61,7 @@ pub fn summarize(lib: &Library, defs: &crate::gen::rawgen::LayerDefs) -> Result<
             for e in &lay.elems {
                 let l = layers.get(e.layer).ok_or("unknown layer key")?;
                 let pn = defs.num_of(e.layer, &e.purpose).or_else(|| l.num(&e.purpose)).ok_or(format!("purpose {:?} has no number on layer {}", e.purpose, l.layernum))?;
-                elems.push((l.layernum, pn, cshape_of(&e.inner), e.net.as_ref().map(|n| n.to_lowercase())));
+                elems.push((l.layernum, pn, cshape_of(&e.inner), e.net.as_ref().map(|n| n.to_lowercase()), exact_form(&e.inner, as_exported)));
             }
             elems.sort();
             out.insert(c.name.clone(), (insts, elems));
@@ -111,6 +132,12 @@ impl Prop for C07 {
             cfg.shared_layer_numbers = true;
             cx.count("libraries_with_shared_layer_numbers");
         }
+        // every fifth library: layout views named differently from their cells (GDSII has one name per structure: the cell's is the one
+        // references use, so it is the one that has to survive)
+        if cx.n % 5 == 3 {
+            cfg.view_names = true;
+            cx.count("libraries_with_view_names");
+        }
         let g = rand_raw_lib(&mut cx.rng, &cfg);
         if !self.trip(cx, &g, via_file) {
             return;
@@ -153,7 +180,7 @@ impl C07 {
     /// One raw -> GDSII -> raw trip of `g.lib` as it is now, judged against a summary taken now. False if a violation was reported.
     fn trip(&self, cx: &mut Cx, g: &GenRaw, via_file: bool) -> bool {
         cx.eval();
-        let want = match summarize(&g.lib, &g.defs) {
+        let want = match summarize(&g.lib, &g.defs, true) {
             Ok(w) => w,
             Err(e) => {
                 cx.inconclusive(format!("generator: {}", e));
@@ -280,7 +307,7 @@ impl C07 {
             cx.violation(&format!("units-changed|{}", unit), json!({"want": unit, "got": format!("{:?}", back.units)}));
             return false;
         }
-        let got = match summarize(&back, &g.defs) {
+        let got = match summarize(&back, &g.defs, false) {
             Ok(s) => s,
             Err(e) => {
                 cx.violation("import|unresolvable-layer", json!({"error": e}));
@@ -302,9 +329,15 @@ impl C07 {
                 let missing = we.iter().find(|x| !ge.contains(x));
                 let class = match missing {
                     Some(m) => {
+                        let same_but_form = ge.iter().find(|x| x.0 == m.0 && x.1 == m.1 && x.2 == m.2 && x.3 == m.3);
                         let twin = ge.iter().find(|x| x.0 == m.0 && x.1 == m.1 && x.2 == m.2);
                         let twin_geo = ge.iter().find(|x| x.0 == m.0 && x.1 == m.1 && x.3 == m.3);
-                        if twin.is_some() {
+                        if same_but_form.is_some() {
+                            match m.2 {
+                                CShape::Path(..) => "path-geometry",
+                                _ => if m.4.starts_with('R') { "rectangle-corners-changed" } else { "polygon-vertex-order-changed" },
+                            }
+                        } else if twin.is_some() {
                             if m.3.is_some() { "net-lost" } else { "net-gained" }
                         } else if twin_geo.is_some() {
                             match m.2 {
